@@ -216,8 +216,14 @@ pub fn layout(ctx: &Ctx, prop: &str) -> Layout {
     let slow = std::env::var("ASESIM_PROFILE").map(|p| p == "unopt").unwrap_or(false);
     let l = layout_full(ctx, prop, nc, small);
     if slow {
+        // corpus bases stay; generated structured bases are cut to a third in the thorough tier
+        let corpus_part = match prop {
+            "C04" | "C05" if ctx.tier == Tier::Thorough => small + 2,
+            _ => l.cell_bases,
+        };
         Layout {
             random_blocks: (l.random_blocks / 3).max(1),
+            cell_bases: corpus_part.min(l.cell_bases) + (l.cell_bases.saturating_sub(corpus_part)) / 3,
             ..l
         }
     } else {
